@@ -317,11 +317,24 @@ def offset_pad_rule(repo: Repo, rep: Report, rid: str) -> None:
                   f"dumped shorter than its size and later fields land at the wrong position, while the reader still seeks to the offset", fi.loc(c))
     rd = repo.func("types/structure.py", "StructureMetaType._read")
     rstream = rd.node.args.args[1].arg
-    starts = {norm(s2.targets[0]) for s2 in rd.node.body if isinstance(s2, ast.Assign) and norm(s2.value) == f"{rstream}.tell()"}
-    seeks = [s2 for s2 in walk_body(rd.node.body) if isinstance(s2, ast.If) and "field.offset is not None" in norm(s2.test)
-             and any(st_ in {x.id for x in ast.walk(s2.test) if isinstance(x, ast.Name)} for st_ in starts)]
-    rep.check(bool(seeks) and not any("align" in norm(x.test).lower() for x in seeks), rid, f"{rd.key}:offset-seek", "the reader seeks to recorded offsets in both modes",
-              "the reader's seek to the recorded field offset is conditioned on the alignment flag", rd.loc())
+    rpm = {}
+    for p_ in ast.walk(rd.node):
+        for c_ in ast.iter_child_nodes(p_):
+            rpm[c_] = p_
+
+    def guards(node: ast.AST) -> list[str]:
+        out, child, p2 = [], node, rpm.get(node)
+        while p2 is not None and p2 is not rd.node:
+            if isinstance(p2, ast.If) and any(child is s3 or any(child is y for y in ast.walk(s3)) for s3 in p2.body):
+                out.append(norm(p2.test))
+            child, p2 = p2, rpm.get(p2)
+        return out
+
+    # seeks whose target is the recorded offset: guarded (at any nesting depth) by 'field.offset is not None'
+    seeks = [c for c in walk_body(rd.node.body) if isinstance(c, ast.Call) and call_name(c) == "seek" and norm(c.func.value) == rstream
+             and any("field.offset is not None" in t for t in guards(c))]
+    rep.check(bool(seeks) and not any("align" in t.lower() for c in seeks for t in guards(c)), rid, f"{rd.key}:offset-seek",
+              "the reader seeks to recorded offsets in both modes", "the reader's seek to the recorded field offset is conditioned on the alignment flag", rd.loc())
 
 
 def leb128_termination_rule(repo: Repo, rep: Report, rid: str) -> None:
